@@ -11,7 +11,8 @@
 (*      else is done about it);                                            *)
 (*   2. reads EVERY file of the bundle from disk again, one after the      *)
 (*      other (AddTemplateFile on a fresh bundle);                         *)
-(*   3. compiles; on any error: logs the error, keeps the registry;        *)
+(*   3. compiles (parse, the registered parse passes, data-ref check,      *)
+(*      globals); on any error: logs the error, keeps the registry;        *)
 (*   4. on success: calls recompilationCallback(new), then `*reg = *new`,  *)
 (*      then logs "update successful".                                     *)
 (* One action below per step.  The environment is a single writer that     *)
@@ -62,6 +63,13 @@
 (*      LiveStrict holds for Methods \subseteq {"write","atomic"} and is   *)
 (*      VIOLATED as soon as "recreate" or "moveaway" is allowed.           *)
 (*                                                                         *)
+(*  (e) PassesApplied, GlobalsBound: the registry in use has been through  *)
+(*      every parse pass registered with AddParsePass, and its templates   *)
+(*      are bound to the bundle's globals (the recompiler's fresh bundle   *)
+(*      must carry both over; every template of the harness prints a       *)
+(*      global, so a fresh bundle without globals does not compile at all  *)
+(*      and "globals_dropped_on_recompile" shows as a stale registry).     *)
+(*                                                                         *)
 (* WHAT BREAKS (d) IN THE REAL WORLD - stated honestly:                    *)
 (*  1. the file is still absent when the recompiler re-adds the watch      *)
 (*     (10 ms after the Remove/Rename event): watcher.Add fails, the error *)
@@ -89,7 +97,10 @@
 (* what did compile), "callback_after_swap", "partial_reload" (only the    *)
 (* file named by the event is re-read, the others are taken from the       *)
 (* content the bundle was built with), "watch_not_readded",                *)
-(* "readd_after_read" (the watch is added back after the files were read). *)
+(* "readd_after_read" (the watch is added back after the files were read), *)
+(* "passes_skipped_on_recompile" (what the code did before 1156157: the    *)
+(* fresh bundle has no parse passes), "globals_dropped_on_recompile" (the  *)
+(* fresh bundle is built without AddGlobalsMap(b.globals)).                *)
 (*                                                                         *)
 (* M2: with HistOn the writer starts a write only at quiescence and the    *)
 (* registry is observed at the next quiescence (that is what the harness   *)
@@ -103,6 +114,7 @@ CONSTANTS NF,          \* number of template files; they are read in the order 1
           Methods,     \* write methods the environment may use
           MaxQ,        \* bound on the number of pending events
           MaxWrites,   \* budget of writes (so that the disk stops changing)
+          Passes,      \* the parse passes registered with AddParsePass
           ReadAtomic,  \* TRUE: all files are read in one step (abstraction)
           HistOn       \* TRUE: schedule enumeration mode (M2)
 
@@ -111,16 +123,18 @@ VARIABLES wdisk,   \* file -> content
           wq,      \* pending events, oldest first
           wwr,     \* the writer: idle, or the write in progress and its next step
           wleft,   \* writes left
-          rpc,     \* recompiler: idle | readd | read | fail | cb | swap | logok
+          rpc,     \* recompiler: idle | readd | read | compile | fail | cb | swap | logok
           rev,     \* the event being handled
           rnext,   \* next file to read
           rsnap,   \* what this recompile has read so far
+          rsnapx,  \* its compile result: parse passes applied, globals bound
           wreg,    \* the registry in use: file -> version it was compiled from
+          wregx,   \* the registry in use: parse passes it went through, globals bound
           wcb,     \* callbacks of this recompile: how many, last argument
           wlost,   \* a re-add found the file absent (limitation 1 happened)
           wsnaps,  \* ghost: every disk state that existed since this recompile began
           whist    \* M2 history
-vars == <<wdisk, wwatch, wq, wwr, wleft, rpc, rev, rnext, rsnap, wreg, wcb, wlost, wsnaps, whist>>
+vars == <<wdisk, wwatch, wq, wwr, wleft, rpc, rev, rnext, rsnap, rsnapx, wreg, wregx, wcb, wlost, wsnaps, whist>>
 
 Files == 1..NF
 Valid == {"v1", "v2"}
@@ -130,7 +144,11 @@ NoSnap == [f \in Files |-> "none"]
 InitDisk == [f \in Files |-> "v1"]
 IdleW == [st |-> "idle", f |-> 0, v |-> "none", m |-> "none", k |-> 0]
 NoEv == [f |-> 0, op |-> "none"]
-NoCb == [n |-> 0, arg |-> NoSnap]
+\* every template of the harness prints one global; the bundle defines it as Glob
+Glob == "g"
+NoX == [p |-> {}, g |-> "none"]
+FullX == [p |-> Passes, g |-> Glob]
+NoCb == [n |-> 0, arg |-> NoSnap, argx |-> NoX]
 Ev(f, op) == [f |-> f, op |-> op]
 NSteps(m) == IF m = "atomic" THEN 1 ELSE 2
 
@@ -141,8 +159,8 @@ Quiet == rpc = "idle" /\ wq = <<>> /\ wwr.st = "idle"
 Init ==
   /\ wdisk = InitDisk /\ wwatch = [f \in Files |-> TRUE] /\ wq = <<>>
   /\ wwr = IdleW /\ wleft = MaxWrites
-  /\ rpc = "idle" /\ rev = NoEv /\ rnext = 0 /\ rsnap = NoSnap
-  /\ wreg = InitDisk /\ wcb = NoCb /\ wlost = FALSE /\ wsnaps = {} /\ whist = <<>>
+  /\ rpc = "idle" /\ rev = NoEv /\ rnext = 0 /\ rsnap = NoSnap /\ rsnapx = NoX
+  /\ wreg = InitDisk /\ wregx = FullX /\ wcb = NoCb /\ wlost = FALSE /\ wsnaps = {} /\ whist = <<>>
 
 -----------------------------------------------------------------------------
 (* the file system and the event queue *)
@@ -179,7 +197,7 @@ MoveAway(f) ==
 DropEvent ==
   /\ wq # <<>> /\ Head(wq).op \in {"write", "chmod"} /\ wdisk[Head(wq).f] = "absent"
   /\ wq' = Tail(wq)
-  /\ UNCHANGED <<wdisk, wwatch, wwr, wleft, rpc, rev, rnext, rsnap, wreg, wcb, wlost, wsnaps, whist>>
+  /\ UNCHANGED <<wdisk, wwatch, wwr, wleft, rpc, rev, rnext, rsnap, rsnapx, wreg, wregx, wcb, wlost, wsnaps, whist>>
 
 -----------------------------------------------------------------------------
 (* the writer (environment) *)
@@ -191,8 +209,8 @@ WIntent(f, v, m) ==
   /\ HistOn => (Quiet /\ LastObserved)
   /\ wwr' = [st |-> "busy", f |-> f, v |-> v, m |-> m, k |-> 1]
   /\ wleft' = wleft - 1
-  /\ whist' = IF HistOn THEN Append(whist, [f |-> f, v |-> v, m |-> m, obs |-> NoSnap]) ELSE whist
-  /\ UNCHANGED <<wdisk, wwatch, wq, rpc, rev, rnext, rsnap, wreg, wcb, wlost, wsnaps>>
+  /\ whist' = IF HistOn THEN Append(whist, [f |-> f, v |-> v, m |-> m, obs |-> NoSnap, ox |-> NoX]) ELSE whist
+  /\ UNCHANGED <<wdisk, wwatch, wq, rpc, rev, rnext, rsnap, rsnapx, wreg, wregx, wcb, wlost, wsnaps>>
 
 WStep ==
   /\ wwr.st = "busy" /\ wwr.k <= NSteps(wwr.m) /\ Len(wq) + 2 <= MaxQ
@@ -205,18 +223,18 @@ WStep ==
          [] m = "moveaway" /\ k = 1 -> MoveAway(f)
          [] m = "moveaway" /\ k = 2 -> Unlink(f, v)
   /\ wwr' = [wwr EXCEPT !.k = @ + 1]
-  /\ UNCHANGED <<wleft, rpc, rev, rnext, rsnap, wreg, wcb, wlost, whist>>
+  /\ UNCHANGED <<wleft, rpc, rev, rnext, rsnap, rsnapx, wreg, wregx, wcb, wlost, whist>>
 
 WDone ==
   /\ wwr.st = "busy" /\ wwr.k > NSteps(wwr.m)
   /\ wwr' = IdleW
-  /\ UNCHANGED <<wdisk, wwatch, wq, wleft, rpc, rev, rnext, rsnap, wreg, wcb, wlost, wsnaps, whist>>
+  /\ UNCHANGED <<wdisk, wwatch, wq, wleft, rpc, rev, rnext, rsnap, rsnapx, wreg, wregx, wcb, wlost, wsnaps, whist>>
 
 \* M2: the harness looks at the registry (renders) at quiescence
 Observe ==
   /\ HistOn /\ Quiet /\ ~LastObserved
-  /\ whist' = [whist EXCEPT ![Len(whist)].obs = wreg]
-  /\ UNCHANGED <<wdisk, wwatch, wq, wwr, wleft, rpc, rev, rnext, rsnap, wreg, wcb, wlost, wsnaps>>
+  /\ whist' = [whist EXCEPT ![Len(whist)].obs = wreg, ![Len(whist)].ox = wregx]
+  /\ UNCHANGED <<wdisk, wwatch, wq, wwr, wleft, rpc, rev, rnext, rsnap, rsnapx, wreg, wregx, wcb, wlost, wsnaps>>
 
 -----------------------------------------------------------------------------
 (* the recompiler *)
@@ -226,10 +244,10 @@ Deliver ==
   /\ rpc = "idle" /\ wq # <<>>
   /\ rev' = Head(wq) /\ wq' = Tail(wq)
   /\ rpc' = IF Head(wq).op \in {"remove", "rename"} /\ "readd_after_read" \notin Dev THEN "readd" ELSE "read"
-  /\ rnext' = 1 /\ rsnap' = NoSnap /\ wcb' = NoCb /\ wsnaps' = {wdisk}
-  /\ UNCHANGED <<wdisk, wwatch, wwr, wleft, wreg, wlost, whist>>
+  /\ rnext' = 1 /\ rsnap' = NoSnap /\ rsnapx' = NoX /\ wcb' = NoCb /\ wsnaps' = {wdisk}
+  /\ UNCHANGED <<wdisk, wwatch, wwr, wleft, wreg, wregx, wlost, whist>>
 
-AfterReadd == IF "readd_after_read" \in Dev THEN (IF AllValid(rsnap) THEN (IF "callback_after_swap" \in Dev THEN "swap" ELSE "cb") ELSE "fail") ELSE "read"
+AfterReadd == IF "readd_after_read" \in Dev THEN "compile" ELSE "read"
 
 \* time.Sleep(10ms); b.watcher.Add(ev.Name) == nil
 ReAddOK ==
@@ -237,18 +255,17 @@ ReAddOK ==
   /\ "watch_not_readded" \in Dev \/ wdisk[rev.f] # "absent"
   /\ wwatch' = IF "watch_not_readded" \in Dev THEN wwatch ELSE [wwatch EXCEPT ![rev.f] = TRUE]
   /\ rpc' = AfterReadd
-  /\ UNCHANGED <<wdisk, wq, wwr, wleft, rev, rnext, rsnap, wreg, wcb, wlost, wsnaps, whist>>
+  /\ UNCHANGED <<wdisk, wq, wwr, wleft, rev, rnext, rsnap, rsnapx, wreg, wregx, wcb, wlost, wsnaps, whist>>
 
 \* ... != nil: Logger.Println(err), carry on
 ReAddFail ==
   /\ rpc = "readd" /\ "watch_not_readded" \notin Dev /\ wdisk[rev.f] = "absent"
   /\ wlost' = TRUE
   /\ rpc' = AfterReadd
-  /\ UNCHANGED <<wdisk, wwatch, wq, wwr, wleft, rev, rnext, rsnap, wreg, wcb, wsnaps, whist>>
+  /\ UNCHANGED <<wdisk, wwatch, wq, wwr, wleft, rev, rnext, rsnap, rsnapx, wreg, wregx, wcb, wsnaps, whist>>
 
 AfterRead(s) ==
-  IF rev.op \in {"remove", "rename"} /\ "readd_after_read" \in Dev THEN "readd"
-  ELSE IF AllValid(s) THEN (IF "callback_after_swap" \in Dev THEN "swap" ELSE "cb") ELSE "fail"
+  IF rev.op \in {"remove", "rename"} /\ "readd_after_read" \in Dev THEN "readd" ELSE "compile"
 
 \* bundle.AddTemplateFile(soyfile.name) for the next file / for all files
 ReadStep ==
@@ -261,38 +278,51 @@ ReadStep ==
      ELSE LET s == [rsnap EXCEPT ![rnext] = wdisk[rnext]] IN
           /\ rsnap' = s /\ rnext' = rnext + 1
           /\ rpc' = IF rnext = NF THEN AfterRead(s) ELSE "read"
-  /\ UNCHANGED <<wdisk, wwatch, wq, wwr, wleft, rev, wreg, wcb, wlost, wsnaps, whist>>
+  /\ UNCHANGED <<wdisk, wwatch, wq, wwr, wleft, rev, rsnapx, wreg, wregx, wcb, wlost, wsnaps, whist>>
 
-Finished == /\ rpc' = "idle" /\ rev' = NoEv /\ rnext' = 0 /\ rsnap' = NoSnap /\ wcb' = NoCb /\ wsnaps' = {}
+\* bundle.Compile(): parse every file, run the registered parse passes
+\* (bundle.parsepasses = b.parsepasses), CheckDataRefs, SetGlobals with the
+\* globals carried over (AddGlobalsMap(b.globals)): a global that is not
+\* defined is a compile error
+Compile ==
+  /\ rpc = "compile"
+  /\ LET gl == IF "globals_dropped_on_recompile" \in Dev THEN "none" ELSE Glob
+         ok == AllValid(rsnap) /\ gl # "none"
+     IN /\ rsnapx' = IF ok THEN [p |-> IF "passes_skipped_on_recompile" \in Dev THEN {} ELSE Passes, g |-> gl] ELSE NoX
+        /\ rpc' = IF ~ok THEN "fail" ELSE IF "callback_after_swap" \in Dev THEN "swap" ELSE "cb"
+  /\ UNCHANGED <<wdisk, wwatch, wq, wwr, wleft, rev, rnext, rsnap, wreg, wregx, wcb, wlost, wsnaps, whist>>
+
+Finished == /\ rpc' = "idle" /\ rev' = NoEv /\ rnext' = 0 /\ rsnap' = NoSnap /\ rsnapx' = NoX /\ wcb' = NoCb /\ wsnaps' = {}
 
 \* bundle.Compile() failed: Logger.Println(err); continue
 Fail ==
   /\ rpc = "fail"
   /\ wreg' = IF "swap_on_error" \in Dev THEN [f \in Files |-> IF rsnap[f] \in Valid THEN rsnap[f] ELSE "none"] ELSE wreg
+  /\ wregx' = wregx
   /\ Finished
   /\ UNCHANGED <<wdisk, wwatch, wq, wwr, wleft, wlost, whist>>
 
 \* b.recompilationCallback(registry)
 Callback ==
   /\ rpc = "cb"
-  /\ wcb' = [n |-> wcb.n + 1, arg |-> rsnap]
+  /\ wcb' = [n |-> wcb.n + 1, arg |-> rsnap, argx |-> rsnapx]
   /\ rpc' = IF "callback_after_swap" \in Dev THEN "logok" ELSE "swap"
-  /\ UNCHANGED <<wdisk, wwatch, wq, wwr, wleft, rev, rnext, rsnap, wreg, wlost, wsnaps, whist>>
+  /\ UNCHANGED <<wdisk, wwatch, wq, wwr, wleft, rev, rnext, rsnap, rsnapx, wreg, wregx, wlost, wsnaps, whist>>
 
 \* *reg = *registry
 Swap ==
   /\ rpc = "swap"
-  /\ wreg' = rsnap
+  /\ wreg' = rsnap /\ wregx' = rsnapx
   /\ rpc' = IF "callback_after_swap" \in Dev THEN "cb" ELSE "logok"
-  /\ UNCHANGED <<wdisk, wwatch, wq, wwr, wleft, rev, rnext, rsnap, wcb, wlost, wsnaps, whist>>
+  /\ UNCHANGED <<wdisk, wwatch, wq, wwr, wleft, rev, rnext, rsnap, rsnapx, wcb, wlost, wsnaps, whist>>
 
 \* Logger.Printf("update successful (%v)", ev)
 LogOK ==
   /\ rpc = "logok"
   /\ Finished
-  /\ UNCHANGED <<wdisk, wwatch, wq, wwr, wleft, wreg, wlost, whist>>
+  /\ UNCHANGED <<wdisk, wwatch, wq, wwr, wleft, wreg, wregx, wlost, whist>>
 
-Recompiler == Deliver \/ ReAddOK \/ ReAddFail \/ ReadStep \/ Fail \/ Callback \/ Swap \/ LogOK
+Recompiler == Deliver \/ ReAddOK \/ ReAddFail \/ ReadStep \/ Compile \/ Fail \/ Callback \/ Swap \/ LogOK
 WriterNext == \E f \in Files, v \in Writable, m \in AllMethods : WIntent(f, v, m)
 
 Next == WriterNext \/ WStep \/ WDone \/ DropEvent \/ Observe \/ Recompiler
@@ -308,14 +338,18 @@ TypeOK ==
   /\ wwatch \in [Files -> BOOLEAN]
   /\ Len(wq) <= MaxQ
   /\ \A i \in 1..Len(wq) : wq[i].f \in Files /\ wq[i].op \in {"write", "chmod", "remove", "rename"}
-  /\ rpc \in {"idle", "readd", "read", "fail", "cb", "swap", "logok"}
+  /\ rpc \in {"idle", "readd", "read", "compile", "fail", "cb", "swap", "logok"}
   /\ wreg \in [Files -> Valid \cup {"none"}]
   /\ wleft \in 0..MaxWrites
   /\ \A f \in Files : wdisk[f] = "absent" => ~wwatch[f]
-  /\ rpc = "idle" => (rev = NoEv /\ rsnap = NoSnap /\ wsnaps = {} /\ wcb = NoCb)
+  /\ rpc = "idle" => (rev = NoEv /\ rsnap = NoSnap /\ rsnapx = NoX /\ wsnaps = {} /\ wcb = NoCb)
 
 \* (a)
 RegValid == AllValid(wreg)
+\* (e) the registry in use has been through every registered parse pass, and
+\* its templates are bound to the bundle's globals
+PassesApplied == wregx.p = Passes
+GlobalsBound == wregx.g = Glob
 Installing == rpc \in {"cb", "swap", "logok"}
 PerFileFromDisk == Installing => \A f \in Files : \E s \in wsnaps : rsnap[f] = s[f]
 SnapshotExisted == Installing => rsnap \in wsnaps
@@ -333,10 +367,10 @@ IsSwap == rpc = "swap" /\ rpc' # "swap"
 IsCallback == rpc = "cb" /\ rpc' # "cb"
 IsLogOK == rpc = "logok" /\ rpc' = "idle"
 FailKeepsRegistry == [][IsFail => wreg' = wreg]_vars
-OnlySwapChangesRegistry == [][wreg' # wreg => (IsSwap /\ AllValid(rsnap) /\ wreg' = rsnap)]_vars
+OnlySwapChangesRegistry == [][<<wreg, wregx>>' # <<wreg, wregx>> => (IsSwap /\ AllValid(rsnap) /\ wreg' = rsnap /\ wregx' = rsnapx)]_vars
 
 \* (c)
-CallbackBeforeVisible == [][IsSwap => (wcb.n = 1 /\ wcb.arg = wreg')]_vars
+CallbackBeforeVisible == [][IsSwap => (wcb.n = 1 /\ wcb.arg = wreg' /\ wcb.argx = wregx')]_vars
 CallbackOncePerSuccess == [][(IsCallback => wcb.n = 0) /\ (IsLogOK => (wcb.n = 1 /\ wcb.arg = wreg))]_vars
 NoCallbackOnFail == [][IsFail => wcb.n = 0]_vars
 
@@ -350,5 +384,6 @@ EventuallyQuiet == <>[](rpc = "idle" /\ wq = <<>>)
 EmitHist == (HistOn /\ whist # <<>> /\ LastObserved /\ Quiet) =>
               PrintT(ToJson([h |-> [i \in 1..Len(whist) |->
                  [f |-> whist[i].f, v |-> whist[i].v, m |-> whist[i].m,
-                  obs |-> [j \in 1..NF |-> whist[i].obs[j]]]]]))
+                  obs |-> [j \in 1..NF |-> whist[i].obs[j]],
+                  p |-> whist[i].ox.p, g |-> whist[i].ox.g]]]))
 =============================================================================
